@@ -638,6 +638,9 @@ def check_image_group(iinfo, gname, flat, disc):
             out.append(disc("d8-object-array", key, "numeric variables", "object array of dicts"))
             for sub, column in subs.items():
                 for i, (value, scaled, units) in enumerate(column):
+                    if i >= len(leaf.values):
+                        out.append(disc("value", key, f"{len(column)} lines", f"{len(leaf.values)} lines"))
+                        break
                     item = leaf.values[i]
                     ok = isinstance(item, dict) and sub in item and isinstance(item[sub], tuple)
                     if ok:
